@@ -76,7 +76,7 @@ Section ArenaProofs.
 
   Lemma step_inv a o : Inv a -> Inv (fst (step a o)).
   Proof.
-    intros H. destruct o as [v|id|id|id| | |w]; cbn; try exact H.
+    intros H. destruct o as [v|id|id|id| | |w| ]; cbn; try exact H.
     - apply alloc_inv; exact H.
     - destruct (delete on_delete a id) eqn:E; cbn; [eapply delete_inv; eauto|exact H].
   Qed.
@@ -103,7 +103,7 @@ Section ArenaProofs.
   Lemma step_next_id a o :
     next_id (fst (step a o)) = next_id a + (match o with OAlloc _ => 1 | _ => 0 end).
   Proof.
-    unfold next_id. destruct o as [v|id|id|id| | |w]; cbn; try lia.
+    unfold next_id. destruct o as [v|id|id|id| | |w| ]; cbn; try lia.
     - rewrite app_length; cbn; lia.
     - unfold delete. destruct (contains a id); cbn; [rewrite upd_length|]; lia.
   Qed.
@@ -111,7 +111,7 @@ Section ArenaProofs.
   Lemma step_ids a o :
     ids_of [snd (step a o)] = match o with OAlloc _ => [next_id a] | _ => [] end.
   Proof.
-    destruct o as [v|id|id|id| | |w]; cbn; try reflexivity.
+    destruct o as [v|id|id|id| | |w| ]; cbn; try reflexivity.
     - destruct (delete on_delete a id); reflexivity.
     - destruct (index a id); reflexivity.
     - destruct (len a); reflexivity.
@@ -147,7 +147,7 @@ Section ArenaProofs.
     index a id = Some v -> o <> ODelete id -> index (fst (step a o)) id = Some v.
   Proof.
     intros H Hne. pose proof (index_lt _ _ _ H) as Hlt.
-    destruct o as [w|d|d|d| | |w']; cbn; try exact H.
+    destruct o as [w|d|d|d| | |w'| ]; cbn; try exact H.
     - unfold index, get, is_dead in *; cbn. destruct (existsb _ _); [discriminate|].
       rewrite nth_error_app1; assumption.
     - unfold delete. destruct (contains a d) eqn:C; cbn; [|exact H].
@@ -184,7 +184,7 @@ Section ArenaProofs.
 
   Lemma step_dead a o id : is_dead a id = true -> is_dead (fst (step a o)) id = true.
   Proof.
-    intros H. destruct o as [w|d|d|d| | |w']; cbn; try exact H.
+    intros H. destruct o as [w|d|d|d| | |w'| ]; cbn; try exact H.
     - unfold delete. destruct (contains a d); cbn; [|exact H].
       unfold is_dead in *; cbn. rewrite H. apply orb_true_r.
   Qed.
